@@ -1,4 +1,4 @@
-package main
+package lib
 
 import (
 	"verifharness/cmd/c06/fr"
@@ -9,9 +9,17 @@ type config struct {
 	vpn  bool
 }
 
-var configs = []config{
+var allConfigs = []config{
 	{"tcp", false}, {"tcp", true}, {"tcpsyn", false}, {"tcpsyn", true},
-	{"icmp", false}, {"icmp", true}, {"arp", false}, {"arp", false},
+	{"icmp", false}, {"icmp", true}, {"udp", false}, {"udp", true}, {"arp", false}, {"arp", false},
+}
+
+// genKind: the udp scan listens for ICMP, its frames are those of the icmp scan
+func genKind(kind string) string {
+	if kind == "udp" {
+		return "icmp"
+	}
+	return kind
 }
 
 type gen struct {
@@ -339,6 +347,16 @@ func (c *gen) lenField() []byte {
 	return f
 }
 
+// otherLink: a valid reply framed for the OTHER link mode (Ethernet frame to a raw-IP processor and vice versa)
+func (c *gen) otherLink() []byte {
+	c2 := *c
+	c2.vpn = !c.vpn
+	if c.kind == "arp" {
+		c2.kind, c2.vpn = fr.Pick(c.g, "tcp", "icmp"), true
+	}
+	return c2.valid()
+}
+
 type family struct {
 	name string
 	w    int
@@ -357,6 +375,7 @@ var families = []family{
 	{"random-tail", 5, (*gen).randomTail},
 	{"options", 6, (*gen).badOptions},
 	{"ip-length", 6, (*gen).lenField},
+	{"other-link", 8, (*gen).otherLink},
 }
 
 func (c *gen) frame() ([]byte, string) {
@@ -399,6 +418,8 @@ func (c *gen) fixedSequences() []seq {
 	}
 	// the same memory is handed out again (zero-copy ring): two replies from different hosts, the second
 	// landing in the slot of the first, with 0..2 frames that are not reported in between
+	// replies framed for the other link mode: the processor's parser must start at the link type of ITS mode
+	out = append(out, seq{[][]byte{c.otherLink(), c.valid(), c.otherLink()}, []string{"other-link", "valid", "other-link"}, 0})
 	junk := func() []byte { return c.l2(0x88cc, c.payload(30)) }
 	out = append(out, seq{[][]byte{c.valid(), c.valid()}, []string{"ring-valid", "ring-valid"}, 1})
 	out = append(out, seq{[][]byte{c.valid(), c.valid(), c.valid()}, []string{"ring-valid", "ring-valid", "ring-valid"}, 1})
